@@ -117,6 +117,17 @@ def check_record(rec, x, info, entry, clause="isometry"):
 def check_flags(rec, x, entry):
     if not hasattr(x, "tensor_map"):
         return
+    # ``left_inds`` is an isometry claim only on the site tensors of a flat 1D
+    # network (that is where tensor_canonize_bond trusts it as a shortcut); an
+    # uncontracted gate tensor carries it as a mere orientation (input side), for
+    # any matrix: networks with such extra tensors are not judged
+    try:
+        nsites = len(tuple(x.gen_sites_present()))
+    except Exception:
+        return
+    if x.num_tensors != nsites:
+        rec.count("flag", "isometric", "out_of_domain")
+        return
     for t in x.tensor_map.values():
         li = t.left_inds
         if li is None or not isinstance(t.data, np.ndarray):
